@@ -94,7 +94,7 @@ def _h1(paint_mod):
             box = np.array([[-4096, -4096, 1], [4096, -4096, 1], [4096, 4096, 1], [-4096, 4096, 1.0]]).T
             dev = np.abs((M - want) @ box).max()
             scale = 1.0 + np.abs(want @ box).max()
-            if dev > 1e-6 * scale:
+            if dev > 1e-5 + 1e-6 * scale:  # almost_equal(1e-9 absolute) decisions x the 4096-unit probe box
                 _fail("H1", f"emitted wrappers compose to a different affine (dev {dev:.4g})", transform=transform, result=res)
         except Exception as e:  # a broken contract must never break the code under observation
             COUNT["H1.internal_error"] += 1
@@ -152,7 +152,7 @@ def _h7(paint_mod):
                         # t grows with the condition number of the affine (ill-conditioned ones are numerically moot)
                         sv = np.linalg.svd(M[:2, :2], compute_uv=False)
                         cond = sv[0] / max(sv[1], 1e-300)
-                        if dev > max(1e-5, 1e-7 * cond) * (1 + np.abs(t_in[ok]).max()):
+                        if dev > max(1e-4, 1e-6 * cond) * (1 + np.abs(t_in[ok]).max()):
                             _fail("H7", f"gradient parameter not preserved by apply_transform (dev {dev:.4g})", gradient=self, transform=transform, result=res)
                     if (np.isnan(t_in) != np.isnan(t_out)).any():
                         COUNT["H7.nan_mismatch"] += 1
@@ -278,8 +278,8 @@ def _h3(wf):
             walk(ch, M, out, paint_mod)
 
     @functools.wraps(orig)
-    def _bounds(color_glyph, quantize_factor=1):
-        res = orig(color_glyph, quantize_factor)
+    def _bounds(color_glyph, quantize_factor=1, *extra, **kw):
+        res = orig(color_glyph, quantize_factor, *extra, **kw)  # signature-agnostic: a refactoring may add parameters
         COUNT["H3._bounds"] += 1
         try:
             from nanoemoji import paint as paint_mod
